@@ -213,10 +213,12 @@ CHECKS['C11'] = (
     'and its corollaries (plain = gABI = zdebug); debug link followed iff the CRC matches (target\'s view), bad CRC rejected; declared != inflated size rejected on both compression paths; '
     'has_dwarf_info iff a debug-info section in either naming exists (or, non-strictly, .eh_frame); supplementary link parsing; regenerated name tuple / structs / constants tied to the Spec; '
     'correspondence: shipped and synthesized payloads re-wrapped under every transform x class x byte order x zlib level, full DIE/line/CFI dumps compared across wrappings',
-    'Proof of the container-invariance of the view with zlib and CRC-32 as parameters (one assumption: decompress(deflate x, k) = x resp. its k-byte prefix); partial by nature for the real zlib/CRC.',
-    'Whole-file forms (view_of_file, view_of_file_z for SHF_COMPRESSED via C01\'s wfZ theorems, view_plain_eq_zdebug_file, view_plain_eq_gabi_file, view_with_sup_file) compose the section-table '
-    'theorems with C01 over any byte string carrying the description. Not proved: relocations on compressed sections; '
-    'zlib chunk independence / CRC chunking and the invariance of DIE/line/CFI dumps through the DWARF layers are checked empirically.',
+    'Proof of the container-invariance of the view with zlib as a parameter (one assumption: decompress(deflate x, k) = x resp. its k-byte prefix) and CRC-32 as the Spec function (GDB manual) computed by the model; partial by nature for the real zlib.',
+    'Whole-file forms (view_of_file, view_of_file_z, view_plain_eq_zdebug_file, view_plain_eq_gabi_file, view_with_sup_file) compose the section-table theorems with C01 over any byte string '
+    'carrying the description. Relocations are inside the claim: view_of_content_relocated / view_relocated_invariant (the view is the RELOCATED logical content for any mix of plain / gABI / .zdebug '
+    'storage; reuses C08\'s applyStd under WFApply; fix 11e84e2: .zdebug sections were relocated before decompression), view_unrelocated, reloc_rejected_rejects_file; view_composed_links '
+    '(debug link -> debug file -> its supplementary link, each file in any encoding); the chunked CRC fold equals the one-shot CRC for every chunk size under the streaming law, which the Spec CRC-32 '
+    'satisfies (file_crc32_spec). Correspondence-only: whole-file symbol tables carrying more than st_value, sh_link not designating a symbol table, phantom bytes with relocations, entries outside WFApply; '
     'DESIGN.md §6 C11')
 
 NOT_YET = {
